@@ -28,7 +28,7 @@ pub struct Case {
 }
 
 /// entry points whose verdict is also computed by the Lean model (input ≤ 4 KiB)
-pub const MODEL_EPS: &[&str] = &["json", "csv", "mvt", "pmdir", "pmfind", "pmhdr", "vtblk", "vtbidx", "vttidx", "vthdr", "vpl", "pbfstr"];
+pub const MODEL_EPS: &[&str] = &["json", "tilejson", "csv", "mvt", "pmdir", "pmfind", "pmhdr", "vtblk", "vtbidx", "vttidx", "vthdr", "vpl", "pbfstr"];
 pub const ALL_EPS: &[&str] = &[
 	"json", "jsonstr", "tilejson", "csv", "buildcsv", "vpl", "vpllimit", "vplfile", "build", "mvt", "pbfstr", "pmdir", "pmfind", "pmhdr", "vtblk", "vtbidx", "vttidx", "vthdr", "vt", "pm", "vtfile", "pmfile", "mb",
 	"tar", "dir",
@@ -793,7 +793,7 @@ pub fn run(args: &Args) {
 (bit flips, byte replacement, truncation, deletion, duplication, splices of two valid encodings, length fields set to 2^31/2^32/2^63/2^64-1 and neighbours, multi-byte UTF-8 placed at every \
 alignment relative to error sites, JSON/VPL nesting to 512 quick / 5000 thorough, JSON nesting 1023..1026 around the parser's limit of 1024 and 20 000 / 100 000 levels as crash probes, multi-byte characters straddling ABSOLUTE byte offsets 16..4096 (+-1) of malformed and valid documents, VPL nesting 64/65/66 and 5000 after lexically tricky prefixes (quoted values ending in an escaped backslash, escaped quotes, brackets inside quotes; depth > 64 must be err), self-referential PMTiles leaf directories, semantic corruption of SQLite rows, odd tar member names); \
 container cases perform a sequence of single-tile lookups on one opened reader (first coordinate three times, all probes, all probes again: cache-hit paths after errors and successes); each case runs in a child process (RLIMIT_AS 4 GiB, 10 s watchdog) under catch_unwind with a counting global allocator. Oracle: verdict is ok or err (never panic, abort, SIGSEGV, timeout) and the \
-largest single allocation request is <= {}*|input| + 24 MiB. Entry points with a Lean model (json, csv, mvt, pbfstr, pmdir, pmfind, pmhdr, vtblk, vtbidx, vttidx, vthdr, vpl; input <= 4 KiB) are also compared with the model's verdict. \
+largest single allocation request is <= {}*|input| + 24 MiB. Entry points with a Lean model (json, tilejson, csv, mvt, pbfstr, pmdir, pmfind, pmhdr, vtblk, vtbidx, vttidx, vthdr, vpl; input <= 4 KiB) are also compared with the model's verdict. \
 non-trivial = derived from a valid encoding or structured generator (everything except class 'random'); distinct by case text",
 		ALL_EPS.join(", "),
 		ALLOC_FACTOR
@@ -870,6 +870,7 @@ non-trivial = derived from a valid encoding or structured generator (everything 
 		}
 	}
 	let _ = std::fs::remove_dir_all(&dir);
+	out.notes.push("checklist: class 1 thresholds (classes every-header-byte, header-length, range-at-file-length, entry-count, varint-width, size-field, page-boundary, buffer-boundary, nesting-limit*, abs-offset-*); class 2 faults before open (every-bit, every-truncation, every-window, every-u32, extend) and after open (after-open: truncate/zero/garbage/extend/delete under a warm reader, then a reopened reader); class 3 payload/range classes (odd-ranges, payload-codec, announced-length, zero-length entries); class 4 option interplay: n.a. for decoders (VPL parameter typing is C18's); class 5 reuse: repeated coordinates, second pass, reopened reader on the same source; class 6: 4 threads looking up concurrently on the one reader; class 7 HTTP: n.a.; class 8 extreme coordinates in every probe list (levels 0/30/31, corners); class 9: both the real writers' layouts and the independent encoders with randomised layout freedoms, non-minimal varints; class 10: cached = uncached = concurrent = reopened answers compared per coordinate (kind inconsistent); bulk streams on corrupted containers are outside the statement (no error channel)".into());
 	out.extra.insert("alloc_limit".into(), json!(format!("{ALLOC_FACTOR}*|input| + {ALLOC_SLACK}")));
 	out.finish();
 }
